@@ -12,7 +12,7 @@ package fakeprom
 //	g.Release(id, fakeprom.Answer{Status: 500, Body: ..}) // any other response
 //	g.WaitGone(ids, timeout)             // until the given requests have left the books (released or aborted)
 //	g.Suspects() / g.Confirm(wait)       // see below
-//	g.SetFree(delays)                    // free-running mode (stress): no blocking, i-th request sleeps delays[i%len]
+//	g.SetFree(delays, errEvery)          // free-running mode (stress): no blocking, i-th request sleeps delays[i%len]
 //
 // Accounting.  A request is IN FLIGHT from the moment its handler has read the parameters until the
 // test releases it (the counter is decremented BEFORE the response is written, so the server never counts a
